@@ -4,6 +4,7 @@ from fractions import Fraction
 from .model import *
 from .lib import *
 from .corpus_ctor import Builder, int_bound, float_bound, float_denote, REGEXES
+from .common import rust_str
 
 
 def build_perm(tier, seed):
@@ -238,4 +239,58 @@ def build_finite(tier, seed):
             if d.custom:
                 d2.support = [x.replace(d.type_name + "CustomErr", d2.type_name + "CustomErr") for x in d.support]
                 d2.custom = (d.custom[0], d2.type_name + "CustomErr", d.custom[2])
+    return b.decls
+
+
+def build_defaults(tier, seed):
+    """Default expressions that sit on the other side of a bound before / after sanitising (C03): default() must agree
+    with the constructor applied to the written expression, i.e. sanitize first."""
+    b = Builder("q", tier, seed)
+    tags = ["C03", "C01"]
+    cases = [
+        # (inner, sanitizer body, validator builder, default text, denoted raw default)
+        ("i32", "x.wrapping_add(7)", ("less_or_equal", 100), "95", 95),      # valid as written, invalid after sanitising -> must panic
+        ("i32", "x.wrapping_add(7)", ("less_or_equal", 100), "100", 100),
+        ("i32", "x.wrapping_add(7)", ("less_or_equal", 100), "93", 93),      # valid before and after (93 + 7 = 100)
+        ("i32", "x / 2", ("less_or_equal", 50), "80", 80),                   # invalid as written, valid after sanitising -> must return
+        ("u8", "x.wrapping_add(1)", ("less", 10), "9", 9),
+        ("u8", "x.wrapping_add(1)", ("greater", 0), "255", 255),             # wraps to 0 -> must panic
+        ("i64", "if x > 100 { 100 } else { x }", ("less_or_equal", 100), "150", 150),
+        ("i16", "x.wrapping_abs()", ("greater_or_equal", 0), "-5", -5),
+    ]
+    for i, (ty, body, (k, v), dtxt, dden) in enumerate(cases):
+        for sp in ("closure", "path"):
+            for dsp in ("lit", "const"):
+                d = b.new(inner_int(ty), tags=list(tags))
+                add_with_sanitizer(d, body, sp)
+                d.vals.append(int_bound(k, ty, v, "lit", d))
+                if dsp == "lit":
+                    d.default = (dtxt, dden)
+                else:
+                    d.support.append("const DFLT: %s = %s;" % (ty, dtxt))
+                    d.default = ("DFLT", dden)
+                d.derives = ["Debug", "Default", "TryFrom"]
+    fcases = [("f64", "x * 2.0", ("less", "10.0", Fraction(10)), "6.0", Fraction(6)), ("f64", "x * 2.0", ("less", "10.0", Fraction(10)), "4.0", Fraction(4)),
+              ("f32", "x.abs()", ("greater_or_equal", "0.0", Fraction(0)), "-1.5", Fraction(-3, 2)), ("f64", "x - 1.0", ("greater", "0.0", Fraction(0)), "1.0", Fraction(1)),
+              ("f64", "if x.is_nan() { 0.0 } else { x }", ("greater_or_equal", "0.0", Fraction(0)), "f64::NAN", None)]
+    for (ty, body, (k, t, ex), dtxt, dex) in fcases:
+        d = b.new(inner_float(ty), tags=list(tags))
+        add_with_sanitizer(d, body, "closure")
+        d.vals.append(float_bound(k, ty, t, None, ex, d))
+        d.vals.append(Vld("finite"))
+        den = float_denote(ty, dex) if dex is not None else ("f64", 0x7FF8000000000000)
+        d.default = (dtxt, den)
+        d.derives = ["Debug", "Default", "TryFrom"]
+    scases = [("format!(\"{x}{x}\")", [("len_char_max", 5)], "abc"), ("format!(\"{x}{x}\")", [("len_char_max", 6)], "abc"),
+              ("x.replace('x', \" \")", [("not_empty", None)], "xx"), ("x.chars().take(3).collect()", [("len_char_max", 3)], "abcdef")]
+    for (body, vs, dflt) in scases:
+        for with_trim in (False, True):
+            d = b.new(inner_string(), tags=list(tags))
+            add_with_sanitizer(d, body, "closure")
+            if with_trim:
+                d.sans.append(San("trim"))
+            for (k, v) in vs:
+                d.vals.append(Vld(k, None if v is None else str(v), v))
+            d.default = (rust_str(dflt), dflt)
+            d.derives = ["Debug", "Default", "TryFrom", "FromStr"]
     return b.decls
